@@ -143,3 +143,52 @@ Theorem C10_handshake_spec : forall s c,
   co_installed co = install (co_decision co) (c_type c).
 Proof. exact handshake_spec. Qed.
 Print Assumptions C10_handshake_spec.
+
+(* ---- one connection, several auth requests (h3sHandler is per connection, requests are serialised by authMutex) ----
+
+   A POST /auth on an already authenticated connection is answered with the same 233 response and changes NOTHING:
+   not the authenticated flag, not the controller installed on the connection, no new Connect event, no new call of
+   the Authenticator - whatever Hysteria-CC-RX it carries and whatever the Authenticator would say to it. *)
+Theorem C10_reauth_does_not_renegotiate : forall c st rq,
+  cs_auth st = true ->
+  serve_auth c st rq = (st, R233 (mkResp (s_max_rx c) (s_ignore c))).
+Proof. exact reauth_does_not_renegotiate. Qed.
+Print Assumptions C10_reauth_does_not_renegotiate.
+
+(* For every history of auth requests on a fresh connection (any number rejected by the Authenticator, then the first
+   accepted one, then any further requests): the connection ends authenticated, the controller on it is the one
+   negotiated by the FIRST accepted request, exactly one Connect event was logged, with that request's rate, the
+   Authenticator was consulted for the rejected requests and the accepted one only, and every later request saw the
+   same response with the controller unchanged after it. *)
+Theorem C10_first_accepted_auth_decides : forall c pre vals post,
+  Forall (fun r : auth_req => snd r = false) pre ->
+  let r := serve_run c conn_init (pre ++ (vals, true) :: post) in
+  let so := server_auth c vals in
+  cs_auth (fst r) = true /\
+  cs_installed (fst r) = so_installed so /\
+  cs_connects (fst r) = [so_connect_tx so] /\
+  cs_authcalls (fst r) = map (fun r : auth_req => req_from_header (fst r)) pre ++ [so_auth_tx so] /\
+  snd r = map (fun _ => (RMasq, IDefault)) pre ++
+          (R233 (so_resp so), so_installed so) ::
+          map (fun _ => (R233 (so_resp so), so_installed so)) post.
+Proof. exact first_accepted_auth_decides. Qed.
+Print Assumptions C10_first_accepted_auth_decides.
+
+(* Clause 3 for the connection: after any such history the single reported rate is the enforced one (below 2^63). *)
+Theorem C10_connection_reported_is_enforced : forall c pre vals post,
+  Forall (fun r : auth_req => snd r = false) pre ->
+  let st := fst (serve_run c conn_init (pre ++ (vals, true) :: post)) in
+  let so := server_auth c vals in
+  (forall r, so_decision so = Brutal r -> r < 9223372036854775808) ->
+  exists tx, cs_connects st = [tx] /\ enforced_as_reported (so_decision so) (s_type c) (cs_installed st) tx.
+Proof. exact connection_reported_is_enforced. Qed.
+Print Assumptions C10_connection_reported_is_enforced.
+
+(* Non-vacuity: 1000000, then 50000000, then 0 on one connection of a server without a send limit. *)
+Theorem C10_reauth_example :
+  let c := mkSrv false 0 0 TBbr in
+  let r := serve_run c conn_init [([[x31;x30;x30;x30;x30;x30;x30]], true); ([[x35;x30;x30;x30;x30;x30;x30;x30]], true); ([[x30]], true)] in
+  cs_connects (fst r) = [1000000] /\ cs_installed (fst r) = IBrutal 1000000 /\
+  map snd (snd r) = [IBrutal 1000000; IBrutal 1000000; IBrutal 1000000].
+Proof. exact reauth_example. Qed.
+Print Assumptions C10_reauth_example.
